@@ -38,7 +38,7 @@ def check(tier):
     b.compile_harness([os.path.join(VERIF, "src", "e2_pairs.cpp")], pairs, flags=["-O1", "-w"] + SAN, incs=[gen])
     logbase = os.path.join(b.dir, "san")
     env = san_env(logbase)            # history families: one leak check per history
-    env_noleak = san_env(logbase, False)  # E2 spaces: memory errors and UB on every transition (a leak check per transition costs ~50 ms each)
+    env_noleak = san_env(logbase, False); env_noleak["E2_PLAIN_STATE_KEY"] = "1"  # sanitizer runs: state = observation (the call-order refinement is C12's job)  # E2 spaces: memory errors and UB on every transition (a leak check per transition costs ~50 ms each)
 
     def collect_logs(tag, history_of=None):
         n = 0
